@@ -47,6 +47,11 @@ def _rbc_bmc(count, quick, thorough):
         runs.append(dict(name="bmc N=%d k=%d" % (n, k), dir="rbc", files=["rbc_bmc.go.txt"], entry="verifH_C02_bmc", params={"hN": n, "hK": k}, shards=sh, shard_depth=depth,
                          count=count, expect_covers=["both-delivered", "equivocation-detected", "broadcast-delivered"] if k >= 3 else [],
                          bounds={"N": n, "events": k, "rounds": "all uint8", "digest byte": "all", "receivers": "2 honest + %d Byzantine" % (n - 2)}, only_tiers=["quick"]))
+    # directed runs: the classic equivocation (two payloads of one round to both honest parties, either order) followed by k free events
+    for (n, k, sh, depth, tiers) in ((3, 3, 16, 5, ["quick", "thorough"]), (3, 4, 16, 6, ["thorough"]), (4, 3, 16, 5, ["thorough"])):
+        runs.append(dict(name="equivocation prefix + bmc N=%d k=%d" % (n, k), dir="rbc", files=["rbc_bmc.go.txt"], entry="verifH_C02_bmc", params={"hN": n, "hK": k, "hPre": 1}, shards=sh, shard_depth=depth,
+                         count=count, expect_covers=["equivocation-detected"],
+                         bounds={"N": n, "prefix": "broadcaster 0 sends two different payloads of one round to both honest parties, per party in either order", "free events": k}, only_tiers=tiers))
     for (n, k, sh, depth) in thorough:
         runs.append(dict(name="bmc N=%d k=%d" % (n, k), dir="rbc", files=["rbc_bmc.go.txt"], entry="verifH_C02_bmc", params={"hN": n, "hK": k}, shards=sh, shard_depth=depth,
                          count=count, expect_covers=["both-delivered", "equivocation-detected", "broadcast-delivered"] if k >= 3 else [],
@@ -153,6 +158,9 @@ PROPS["C12"] = dict(
     runs=[
         dict(dir="threshold", files=["thr_c12.go.txt"], entry="verifH_C12_sign", args=_THR_CONC + ["-preempt", "0"], count=["assert:C12-", "panic:", "deadlock:"], expect_covers=["end"],
              shards=8, shard_depth=4, bounds={"calls": "Sign, then Sign on the same topic", "outcome of the first": "5 symbolic outcomes", "schedules": "all choices of the next goroutine at blocking points"}),
+        dict(dir="threshold", files=["thr_c12.go.txt"], entry="verifH_C12_concurrent", args=_THR_CONC + ["-preempt", "0", "-det"], count=["assert:C12-", "panic:", "deadlock:"],
+             expect_covers=["end", "second-refused", "second-independent"],
+             bounds={"calls": "a Sign waiting at its first barrier; a second Sign on the same or another topic (symbolic); synchroniser traffic for the first; then the first completes; late traffic", "schedule": "canonical"}),
     ],
 )
 
@@ -210,13 +218,17 @@ PROPS["C07"] = dict(
     runs=[
         dict(name="L2 view lemma", dir="disc", files=["disc_c07.go.txt", "disc_model.go.txt"], entry="verifH_C07_view", args=_DISC_ARGS, count=["assert:C07-", "panic:"], expect_covers=["agreed", "no-agreement-yet"],
              bounds={"self/peers": "all 16-bit ids", "announcements": "0..2 peers", "views": "length 0..3, all 16-bit entries"}),
-        dict(name="L1 HandleMessage lemma", dir="disc", files=["disc_c07.go.txt", "disc_model.go.txt"], entry="verifH_C07_handle", args=_DISC_ARGS, shards=16, shard_depth=6,
+        dict(name="L1 HandleMessage lemma", dir="disc", files=["disc_c07.go.txt", "disc_model.go.txt"], entry="verifH_C07_handle", args=_DISC_ARGS + ["-det"], shards=16, shard_depth=6,
              count=["assert:C07-", "panic:"], expect_covers=["view-stored", "dropped", "query-answered", "response"],
              bounds={"pre-state": "each of two peers announced before or not (arbitrary view), responded before or not", "message": "any type, tag of any universe member, from any peer or a non-member, view length 0..3"}),
-        dict(name="L3 Synchronize vs arbitrary environment", dir="disc", files=["disc_c07.go.txt", "disc_model.go.txt"], entry="verifH_C07_sync", args=_DISC_ARGS, params={"hEvents": 2}, shards=16, shard_depth=6,
+        dict(name="L3 Synchronize vs arbitrary environment", dir="disc", files=["disc_c07.go.txt", "disc_model.go.txt"], entry="verifH_C07_sync", args=_DISC_ARGS, params={"hEvents": 2, "hSeed": 0}, shards=16, shard_depth=6,
              count=["assert:C07-", "panic:", "deadlock:"], expect_covers=["completed", "gave-up"],
              bounds={"expected members": "2 or 3", "environment events": 2, "event": "tick, or any structured message (type, view of length 0..3 over the universe) from any of 3 peers, at any blocking point"},
-             tiers={"thorough": {"params": {"hEvents": 3}, "bounds": {"environment events": 3}}}),
+             tiers={"thorough": {"params": {"hEvents": 3, "hSeed": 0}, "bounds": {"environment events": 3}}}),
+        dict(name="L3 with announcements already in when Synchronize first looks", dir="disc", files=["disc_c07.go.txt", "disc_model.go.txt"], entry="verifH_C07_sync", args=_DISC_ARGS, params={"hEvents": 1, "hSeed": 1}, shards=16, shard_depth=6,
+             count=["assert:C07-", "panic:", "deadlock:"], expect_covers=["completed", "gave-up"],
+             bounds={"expected members": "2 or 3", "prefix": "any subset of the 3 peers announces one common symbolic view (length 0..3) back to back", "environment events": 1},
+             tiers={"thorough": {"params": {"hEvents": 2, "hSeed": 1}, "bounds": {"environment events": 2}}}),
         dict(name="honest system run, 2 members, every delivery order", dir="disc", files=["disc_c07.go.txt", "disc_model.go.txt"], entry="verifH_C07_sys", args=_DISC_ARGS + ["-det"], params={"hParties": 2},
              count=["assert:C07-", "panic:", "deadlock:"], expect_covers=["all-completed"], bounds={"members": 2, "delivery": "any in-flight message next; tickers fire whenever nothing is in flight", "rounds": 24}),
         dict(name="honest system run, 3 members, FIFO delivery", dir="disc", files=["disc_c07.go.txt", "disc_model.go.txt"], entry="verifH_C07_sys", args=_DISC_ARGS + ["-det"], params={"hParties": 3, "hRounds": 60, "hWindow": 1},
@@ -224,7 +236,7 @@ PROPS["C07"] = dict(
     ],
 )
 PROPS["C10"]["runs"] += [
-    dict(name="disc.Member.HandleMessage", dir="disc", files=["disc_c10.go.txt", "disc_model.go.txt"], entry="verifH_C10_disc_handle", args=_DISC_ARGS, params={"hMsgs": 2, "hLenMode": 0}, shards=16, shard_depth=6,
+    dict(name="disc.Member.HandleMessage", dir="disc", files=["disc_c10.go.txt", "disc_model.go.txt"], entry="verifH_C10_disc_handle", args=_DISC_ARGS + ["-det"], params={"hMsgs": 2, "hLenMode": 0}, shards=16, shard_depth=6,
          count=["panic:", "deadlock:", "assert:C10-"], expect_covers=["returned"],
          bounds={"messages in a row": 2, "length": "{0,1,31,32,33,34,35,37,41}", "bytes/source": "all", "state": "synchronising on a topic (peer tags precomputed by the real code) or idle"},
          tiers={"thorough": {"params": {"hMsgs": 1, "hLenMode": 1}, "bounds": {"messages in a row": 1, "length": "0..41"}}}),
@@ -487,3 +499,9 @@ PROPS["C19"] = dict(
         _c19("eddsa", "verifH_C19_sender", ["delivered", "dropped"], {"from": "all 16-bit", "claimed key": "all 32-bit values, or missing"}),
     ],
 )
+
+PROPS["C20"]["runs"].append(
+    dict(name="threshold: KeyGen || HandleMessage dispatching an early DKG protocol message", dir="threshold", files=["thr_c20.go.txt"], entry="verifH_C20_keygen_dispatch",
+         args=["-realhex", "-redirect", "context.WithCancel=verifWithCancel", "-race", "-acqonly", "-preempt", "1"], shards=16, shard_depth=5, replay_repeat=2, replay_args=["-instr", "threshold.go"],
+         count=["race:", "panic:", "deadlock:", "assert:C01-", "assert:C20-"], expect_covers=["end"],
+         bounds={"goroutines": "KeyGen (+ its synchroniser/callback goroutines), one dispatcher", "preemptions": "<= 1", "backend": "stub shaped like TBLS/TPS: Init installs state without a lock, OnMsg uses it"}))
